@@ -179,6 +179,37 @@ class Config:
             td["rowlabels"] = [self._fv(tbl, r, td["hc"] - 1) if td["hc"] else "" for r in range(td["nr"])]
             td["collabels"] = [self._fv(tbl, td["hr"] - 1, c) if td["hr"] else "" for c in range(td["nc"])]
 
+    def rename_items(self, rng, n=2):
+        """sheets and tables renamed through the API in a document whose references were already printed: swap the names of
+        two sheets, give a sheet a fresh name, give a table the name of a table on another sheet / a fresh name (sibling
+        names stay distinct); the plain description follows, so the prefix printed afterwards must use the NEW names."""
+        doc = self.doc
+        for _ in range(n):
+            x = rng.random()
+            if x < 0.35 and len(self.desc) >= 2:
+                i, j = rng.sample(range(len(self.desc)), 2)
+                a, b = self.desc[i][0], self.desc[j][0]
+                doc.sheets[i].name = "tmp-swap"
+                doc.sheets[j].name = a
+                doc.sheets[i].name = b
+                self.desc[i] = (b, self.desc[i][1]) if isinstance(self.desc[i], tuple) else [b, self.desc[i][1]]
+                self.desc[j] = (a, self.desc[j][1]) if isinstance(self.desc[j], tuple) else [a, self.desc[j][1]]
+            elif x < 0.6:
+                i = rng.randrange(len(self.desc))
+                new = "Renamed " + str(rng.randrange(1000))
+                if any(s[0].lower() == new.lower() for s in self.desc):
+                    continue
+                doc.sheets[i].name = new
+                self.desc[i] = (new, self.desc[i][1]) if isinstance(self.desc[i], tuple) else [new, self.desc[i][1]]
+            else:
+                si, tbl, td = rng.choice(self.tables)
+                others = [t["name"] for s, tds in [(x[0], x[1]) for x in self.desc] for t in tds]
+                new = rng.choice(others + ["Fresh " + str(rng.randrange(1000))])
+                if any(t["name"].lower() == new.lower() for t in self.desc[si][1]):
+                    continue
+                tbl.name = new
+                td["name"] = new
+
     def words(self) -> str:
         w = [str(len(self.desc))]
         for sname, tds in self.desc:
@@ -878,6 +909,12 @@ def run(ctx: Ctx):
                 cfg.edit_headers(rng)
                 dwords = cfg.words()
                 desc = cfg.plain()
+            elif k == nrefs // 2 and _ci % 2 == 1:
+                # sheets / tables renamed after references were printed and with NO header write in between (a header
+                # write would refresh the name caches anyway)
+                cfg.rename_items(rng)
+                dwords = cfg.words()
+                desc = cfg.plain()
             spec, exp = gen_ref(rng, cfg)
             one_case(cfg, dwords, desc, spec, exp)
     nrandom = len(req)
@@ -890,6 +927,13 @@ def run(ctx: Ctx):
             one_case(cfg, dwords, desc, spec, exp)
         if variant % 2 == 1:
             cfg.edit_headers(rng, n_edits=4)
+            dwords = cfg.words()
+            desc = cfg.plain()
+            for _ in range(200):
+                spec, exp = gen_ref(rng, cfg)
+                one_case(cfg, dwords, desc, spec, exp)
+        else:
+            cfg.rename_items(rng, n=3)
             dwords = cfg.words()
             desc = cfg.plain()
             for _ in range(200):
